@@ -151,6 +151,8 @@ class Gen:
             return src, meta
         if self.cfg.get("twins") and r.random() < 0.3:
             return progs.typed_twin(r, "sel")
+        if r.random() < 0.06:
+            return progs.literal_twin(r, "f")
         p = r.choice(src_pool)
         return p["src"], p
 
@@ -802,6 +804,13 @@ def make_canaries(batch_seed, tier):
         c_ = cs(1, csrc, defs=[0])
         c_["uses"] = [0]
         ops_ = [h, c_]
+        key = digest([{k: x for k, x in o.items() if k not in ("rk", "meta", "name")} for o in ops_], 16)
+        if key not in seen:
+            seen.add(key)
+            out.append({"ops": ops_, "key": key})
+    # literals that are equal as Python values but differently typed (1 / 1.0 / True ...)
+    for i, tmpl in enumerate(progs.LITERAL_TWINS):
+        ops_ = [cs(0, tmpl.format(n="lit"))]
         key = digest([{k: x for k, x in o.items() if k not in ("rk", "meta", "name")} for o in ops_], 16)
         if key not in seen:
             seen.add(key)
